@@ -70,12 +70,13 @@ theorem toksOf_restCmds (t : FileD) :
   by_cases hempty : t.imports.isEmpty = true
   · have hnil : t.imports = [] := by simpa using hempty
     have hs : sortImports t.imports = [] := by rw [hnil]; rfl
-    simp [toksOf, nLines, exec_importCmds, hempty, hs, lexLines]
+    simp [toksOf, nLines, exec_importCmds, hempty, hs, lexLines, exec]
   · have hne : t.imports.isEmpty = false := by simpa using hempty
     simp only [toksOf, nLines, exec_importCmds, hne, Bool.false_eq_true, if_false, lexLines, lineToks_blank,
       List.nil_append, List.length_cons, List.length_map, hlen]
-    congr 3
-    omega
+    have e1 : (exec [Cmd.gap] true).1.length = 0 := rfl
+    have e2 : 2 + 3 + (t.imports.length + 1) + 0 = 6 + t.imports.length := by omega
+    rw [e1, e2]
 
 /-- every line `restCmds` writes satisfies `P` if the empty line and the texts of its commands do -/
 theorem restCmds_lines (t : FileD) (P : String → Prop) (h0 : P "") (hs : P syntaxLine) (hp : P (packageLine t))
@@ -99,5 +100,242 @@ theorem restCmds_lines (t : FileD) (P : String → Prop) (h0 : P "") (hs : P syn
       · trivial
   · trivial
   · exact he c hc
+
+
+/-! ## from the text to the tokens -/
+
+theorem lexL_syntaxLine (l : Nat) :
+    lexL syntaxLine.toList l =
+      [.tok (.ident "syntax") l, .tok (.sym '=') l, .tok (.str "\"proto3\"") l, .tok (.sym ';') l] := by
+  have h : (syntaxLine.toList : List Char) =
+      "syntax".toList ++ ' ' :: '=' :: ' ' :: ('"' :: "proto3".toList ++ '"' :: [';']) := by decide
+  rw [h, lexL_ident "syntax" isIdent_syntax _ (stopsI_space _), lexL_space, lexL_sym '=' (by decide), lexL_space,
+    lexL_str "proto3".toList [';'] (by intro c hc; revert c; decide), lexL_sym ';' (by decide), lexL_nil]
+  have : String.ofList ('"' :: "proto3".toList ++ ['"']) = "\"proto3\"" := by decide
+  rw [this]
+
+/-- a line that holds only tokens -/
+def TokLine (s : String) : Prop := ∀ (L : Nat), ∀ r ∈ lexL s.toList L, ∃ t ln, r = Raw.tok t ln
+
+theorem tokLine_of_noSlash (s : String) (h : NoCh '/' s.toList) : TokLine s :=
+  fun L r hr => lexL_tokens _ s.toList rfl h L r hr
+
+theorem rawLines_tokens : ∀ (ls : List String) (L : Nat), (∀ s ∈ ls, TokLine s) →
+    ∀ r ∈ rawLines ls L, ∃ t ln, r = Raw.tok t ln
+  | [], _, _, r, hr => by simp [rawLines] at hr
+  | s :: rest, L, h, r, hr => by
+    simp only [rawLines, List.mem_append] at hr
+    rcases hr with hr | hr
+    · exact h s (by simp) L r hr
+    · exact rawLines_tokens rest (L + 1) (fun x hx => h x (by simp [hx])) r hr
+
+theorem noNL_of_all (s : String) (h : s.toList.all (· != '\n') = true) : NoNL s.toList := by
+  intro c hc he
+  subst he
+  simp only [List.all_eq_true] at h
+  have := h _ hc
+  simp at this
+
+theorem noNL_importLine (d : String × String) (hb : PlainBody d.1.toList)
+    (hm : d.2 = "" ∨ d.2 = "public " ∨ d.2 = "weak ") : NoNL (importLine d).toList := by
+  unfold importLine
+  simp only [String.toList_append]
+  have h2 : NoNL d.2.toList := by
+    rcases hm with h | h | h <;> rw [h] <;> exact noNL_of_all _ (by decide)
+  have hbn : NoNL d.1.toList := fun c hc => (hb c hc).2.2
+  have app : ∀ {a b : List Char}, NoNL a → NoNL b → NoNL (a ++ b) := by
+    intro a b ha hb' c hc
+    rcases List.mem_append.mp hc with h | h
+    · exact ha c h
+    · exact hb' c h
+  exact app (app (app (app (noNL_of_all "import " (by decide)) h2) (noNL_of_all "\"" (by decide))) hbn)
+    (noNL_of_all "\";" (by decide))
+
+theorem tokLine_importLine (d : String × String) (hb : PlainBody d.1.toList)
+    (hm : d.2 = "" ∨ d.2 = "public " ∨ d.2 = "weak ") : TokLine (importLine d) := by
+  intro L r hr
+  rw [lexL_importLine d L hb hm] at hr
+  simp only [List.mem_cons, List.mem_append, List.not_mem_nil, or_false] at hr
+  rcases hr with rfl | hr | rfl | rfl
+  · exact ⟨_, _, rfl⟩
+  · unfold modRaws at hr
+    split at hr
+    · simp only [List.mem_singleton] at hr; exact ⟨_, _, hr⟩
+    · split at hr
+      · simp only [List.mem_singleton] at hr; exact ⟨_, _, hr⟩
+      · simp at hr
+  · exact ⟨_, _, rfl⟩
+  · exact ⟨_, _, rfl⟩
+
+
+/-- the lines of the file -/
+theorem lines_simple (gen : String) (t : FileD) (h : SimpleFile gen t) :
+    run (fileCmds gen t) false = ("// " ++ gen) :: "" :: (exec (restCmds t) false).1 := by
+  rw [run_eq_exec, fileCmds_simple gen t h, exec_append]
+  simp [exec]
+
+theorem cmds_P_of_noCh {x : Char} (P : String → Prop) (hP : ∀ s, NoCh x s.toList → P s) (cmds : List Cmd)
+    (h : CmdsNoCh x cmds) : ∀ c ∈ cmds, match c with | .line s => P s | .endl s => P s | .gap => True := by
+  intro c hc
+  have := h c hc
+  cases c with
+  | line s => exact hP s this
+  | endl s => exact hP s this
+  | gap => trivial
+
+theorem sortImports_mem (t : FileD) (d : String × String) (hd : d ∈ sortImports t.imports) : d ∈ t.imports :=
+  (sortImports_perm t.imports).subset hd
+
+theorem noCh_packageLine {x : Char} (hx : Safe x) (hp : NoCh x "package ".toList) (t : FileD) (gen : String)
+    (h : SimpleFile gen t) : NoCh x (packageLine t).toList := by
+  obtain ⟨first, rest, hf, hr, hpkg⟩ := h.pkg
+  unfold packageLine
+  rw [hpkg]
+  simp only [String.toList_append]
+  exact NoCh.append hx (NoCh.append hx hp (noCh_tyStr hx false first rest hf hr)) (noCh_lit hx ";" (by simp))
+
+theorem lex_text (gen : String) (t : FileD) (h : SimpleFile gen t) :
+    ∃ (cm0 : Cm) (N : Nat), lex (String.join ((run (fileCmds gen t) false).map (· ++ "\n"))) =
+      ⟨.ident "syntax", 2, cm0⟩ :: ((toksOf (restCmds t) false 2).drop 1 ++ [T .eof N]) := by
+  have hpk : ∀ x : Char, Safe x → NoCh x "package ".toList → NoCh x (packageLine t).toList :=
+    fun x hx hp => noCh_packageLine hx hp t gen h
+  -- no line holds a line break
+  have hnl1 : ∀ s ∈ (exec (restCmds t) false).1, NoNL s.toList := by
+    apply restCmds_lines t (fun s => NoNL s.toList) (noNL_of_all "" (by decide)) (noNL_of_all _ (by decide))
+      (hpk '\n' safe_nl (noNL_of_all "package " (by decide)))
+    · intro d hd
+      obtain ⟨hb, hm⟩ := h.imports d (sortImports_mem t d hd)
+      exact noNL_importLine d hb hm
+    · exact cmds_P_of_noCh (x := '\n') _ (fun s hs => hs) _ (simpleKids_noCh safe_nl t.items 0 true 0 h.items)
+  -- every line after the first holds tokens only
+  have htok1 : ∀ s ∈ (exec (restCmds t) false).1, TokLine s := by
+    apply restCmds_lines t TokLine
+    · exact tokLine_of_noSlash "" (by intro c hc; simp at hc)
+    · exact tokLine_of_noSlash _ (by intro c hc; revert c; decide)
+    · exact tokLine_of_noSlash _ (hpk '/' safe_slash (by intro c hc; revert c; decide))
+    · intro d hd
+      obtain ⟨hb, hm⟩ := h.imports d (sortImports_mem t d hd)
+      exact tokLine_importLine d hb hm
+    · exact cmds_P_of_noCh (x := '/') _ (fun s hs => tokLine_of_noSlash s hs) _
+        (simpleKids_noCh safe_slash t.items 0 true 0 h.items)
+  have hgen : NoNL ("// " ++ gen).toList := by
+    simp only [String.toList_append]
+    intro c hc
+    rcases List.mem_append.mp hc with h1 | h1
+    · exact noNL_of_all "// " (by decide) c h1
+    · exact h.gen c h1
+  have hall : ∀ s ∈ run (fileCmds gen t) false, NoNL s.toList := by
+    rw [lines_simple gen t h]
+    intro s hs
+    simp only [List.mem_cons] at hs
+    rcases hs with rfl | rfl | hs
+    · exact hgen
+    · exact noNL_of_all "" (by decide)
+    · exact hnl1 s hs
+  -- the raw items
+  unfold lex
+  rw [lexAux_eq_lexL _ _ _ (by omega), text_toList, lexL_text _ 0 hall, lines_simple gen t h]
+  -- the first two lines
+  have hfirst : lexL ("// " ++ gen).toList 0 = [.comment (String.ofList (' ' :: gen.toList)) 0] := by
+    have : ("// " ++ gen).toList = '/' :: '/' :: (' ' :: gen.toList) := by
+      simp only [String.toList_append]; rfl
+    rw [this]
+    apply lexL_comment
+    intro c hc
+    rcases List.mem_cons.mp hc with h1 | h1
+    · rw [h1]; decide
+    · exact h.gen c h1
+  have hblank : lexL "".toList 1 = [] := by
+    have : ("".toList : List Char) = [] := by decide
+    rw [this, lexL_nil]
+  -- the lines of `restCmds` start with the syntax line
+  have hL1 : ∃ tl, (exec (restCmds t) false).1 = syntaxLine :: tl := by
+    unfold restCmds
+    simp only [List.cons_append, exec]
+    exact ⟨_, rfl⟩
+  obtain ⟨tl, htl⟩ := hL1
+  have hraws : rawLines ((exec (restCmds t) false).1) 2 =
+      .tok (.ident "syntax") 2 :: ([.tok (.sym '=') 2, .tok (.str "\"proto3\"") 2, .tok (.sym ';') 2] ++ rawLines tl 3) := by
+    rw [htl]
+    simp only [rawLines, lexL_syntaxLine, List.cons_append, List.nil_append]
+  have htoks := rawLines_tokens _ 2 htok1
+  rw [hraws] at htoks
+  simp only [rawLines, hfirst, hblank, List.nil_append, List.cons_append, hraws, attach]
+  refine ⟨attributeCm none [(String.ofList (' ' :: gen.toList), 0)] (Grammar.Tok.ident "syntax") 2,
+    lastLineOf (rawLines tl 3) 2 + 1, ?_⟩
+  rw [attach_tokens _ 2 2 (fun r hr => htoks r (by simp [hr]))]
+  simp only [attributeCm_nil]
+  -- the tokens after `syntax` are those of `restCmds` without the first
+  have hdrop : (toksOf (restCmds t) false 2).drop 1 =
+      T (.sym '=') 2 :: T (.str "\"proto3\"") 2 :: T (.sym ';') 2 :: (rawLines tl 3).filterMap toP := by
+    unfold toksOf
+    rw [← rawLines_toP, hraws]
+    simp [toP]
+  rw [hdrop]
+  rfl
+
+
+/-! ## the theorem -/
+
+theorem lexLines_imports_length : ∀ (I : List (String × String)) (L : Nat),
+    (∀ i ∈ I, PlainBody i.1.toList ∧ (i.2 = "" ∨ i.2 = "public " ∨ i.2 = "weak ")) →
+    I.length ≤ (lexLines (I.map importLine) L).length
+  | [], _, _ => by simp [lexLines]
+  | d :: r, L, h => by
+    obtain ⟨hb, hm⟩ := h d (by simp)
+    have ih := lexLines_imports_length r (L + 1) (fun i hi => h i (by simp [hi]))
+    simp only [List.map_cons, lexLines, List.length_append, List.length_cons, lineToks_import d L hb hm, importToks]
+    omega
+
+/-- **The grammar model reads the printed text of a simple file back as that file**, with the
+source lines of the text. -/
+theorem parse_print (gen : String) (t : FileD) (h : SimpleFile gen t) :
+    parseFile (String.join ((run (fileCmds gen t) false).map (· ++ "\n"))) = some (rdFile t) := by
+  obtain ⟨cm0, N, hlex⟩ := lex_text gen t h
+  obtain ⟨first, rest, hf, hr, hpkg⟩ := h.pkg
+  have hI : ∀ i ∈ sortImports t.imports, PlainBody i.1.toList ∧ (i.2 = "" ∨ i.2 = "public " ∨ i.2 = "weak ") :=
+    fun i hi => h.imports i (sortImports_mem t i hi)
+  -- the tokens
+  have hX := toksOf_restCmds t
+  have hsyn : lineToks syntaxLine 2 =
+      [T (.ident "syntax") 2, T (.sym '=') 2, T (.str "\"proto3\"") 2, T (.sym ';') 2] := lineToks_syntax 2
+  have hpk : lineToks (packageLine t) 4 = T (.ident "package") 4 :: (tyToks false first rest 4 ++ [T (.sym ';') 4]) := by
+    unfold packageLine; rw [hpkg]; exact lineToks_package first rest 4 hf hr
+  rw [hsyn, hpk] at hX
+  have hdrop : (toksOf (restCmds t) false 2).drop 1 ++ [T .eof N] =
+      T (.sym '=') 2 :: T (.str "\"proto3\"") 2 :: T (.sym ';') 2 ::
+        (T (.ident "package") 4 :: (tyToks false first rest 4 ++ T (.sym ';') 4 ::
+          (lexLines ((sortImports t.imports).map importLine) 6 ++
+            (toksOf (elemsCmds 0 t.items true 0 0) true (itemsStart t) ++ [T .eof N])))) := by
+    rw [hX]; simp
+  -- fuel
+  have hc1 := count_kids t.items h.items 0 true 0 (itemsStart t) true
+  have hc2 := lexLines_imports_length (sortImports t.imports) 6 hI
+  have hlenI : (sortImports t.imports).length = t.imports.length := (sortImports_perm t.imports).length_eq
+  unfold parseFile
+  simp only [hlex, hdrop]
+  have hlen : t.items.length + needAll t.items + (sortImports t.imports).length + 3 ≤
+      (⟨Grammar.Tok.ident "syntax", 2, cm0⟩ :: T (.sym '=') 2 :: T (.str "\"proto3\"") 2 :: T (.sym ';') 2 ::
+        (T (.ident "package") 4 :: (tyToks false first rest 4 ++ T (.sym ';') 4 ::
+          (lexLines ((sortImports t.imports).map importLine) 6 ++
+            (toksOf (elemsCmds 0 t.items true 0 0) true (itemsStart t) ++ [T .eof N]))))).length := by
+    simp only [List.length_cons, List.length_append]
+    omega
+  generalize hL : (⟨Grammar.Tok.ident "syntax", 2, cm0⟩ :: T (.sym '=') 2 :: T (.str "\"proto3\"") 2 :: T (.sym ';') 2 ::
+        (T (.ident "package") 4 :: (tyToks false first rest 4 ++ T (.sym ';') 4 ::
+          (lexLines ((sortImports t.imports).map importLine) 6 ++
+            (toksOf (elemsCmds 0 t.items true 0 0) true (itemsStart t) ++ [T .eof N]))))).length = len at hlen
+  obtain ⟨F5, hF5, hb⟩ : ∃ F5, len + 1 = ((((F5 + 1) + t.items.length) + (sortImports t.imports).length) + 1) + 1 ∧
+      needAll t.items ≤ F5 + 1 :=
+    ⟨len - t.items.length - (sortImports t.imports).length - 2, by omega, by omega⟩
+  rw [hF5, topLevel_syntax, topLevel_package _ first rest 4 _ _ hf,
+    top_imports (sortImports t.imports) 6 _ _ _ hI,
+    top_items t.items h.items h.blocks true 0 (itemsStart t) true (F5 + 1) _ _ rfl hb, topLevel_eof]
+  simp only [List.nil_append, rdFile, mkOpts, groupOpts, unlocateShared, List.map_nil, hpkg, if_true]
+
+/-- … and printing what was read reproduces the text. -/
+theorem reprint_simple (gen : String) (t : FileD) (h : SimpleFile gen t) :
+    printFile gen (rdFile t) = run (fileCmds gen t) false :=
+  printFile_relaid gen t (rdFile t) (simple_unloc gen t h) (relaid_rdFile gen t h)
 
 end J5V.Print.Reparse
